@@ -188,7 +188,28 @@ func VfC02_DINodes() {
 	}
 	node := hC17Def(m, 3)
 	n := hMDNumVary(node)
-	v := vfChoice("variation", n+1)
+	bools := hMDBoolFields(node)
+	v := vfChoice("variation", n+1+len(bools))
+	if v > n {
+		// a bool field spelled out with its default value (`isOptimized: false`),
+		// which the printer never writes: the first print drops it, and the
+		// parser's default for the absent field must then be that same value
+		name := bools[v-n-1]
+		text := hC17Kinds[k].text
+		if hContains(text, name+":") {
+			vfCut("the field is already spelled in the minimal text")
+		}
+		sep := ", "
+		if text[len(text)-2] == '(' {
+			sep = ""
+		}
+		text = text[:len(text)-1] + sep + name + ": false)"
+		src2 := "!nm = !{!3}\n!3 = " + text + "\n!4 = !{}\n!5 = !{!8}\n" +
+			"!6 = distinct !DIGlobalVariable(name: \"gg\", scope: !8, file: !9, line: 2, type: !8, isLocal: true, isDefinition: true)\n" +
+			"!7 = !{!3}\n!8 = !{}\n!9 = !DIFile(filename: \"a.c\", directory: \"/\")\n"
+		hC02Check(src2)
+		return
+	}
 	if v > 0 {
 		hMDVary(node, v-1)
 	}
